@@ -518,6 +518,24 @@ class CallSites:
             pts &= self._fact_points(t, truth, x, call_of, alias)
         return pts
 
+    def pts_all(self, f, pa, x, upto=None):
+        """points x may denote given ALL facts of the path (or its first `upto` facts)"""
+        class _E:
+            pass
+        e = _E()
+        e.nfacts = len(pa.facts) if upto is None else upto
+        return self.pts_for(f, pa, e, x)
+
+    def summary(self, f, pa, x, upto=None):
+        """(types, int widths, float widths, flavours) still possible for item x on this path"""
+        pts = self.pts_all(f, pa, x, upto)
+        PA = self.PA
+        types = {p[0] for p in pts}
+        iw = {p[1] for p in pts if p[0] in PA.int_types}
+        fw = {p[2] for p in pts if p[0] == PA.float_type}
+        fl = {p[3] for p in pts if p[0] in PA.flavour_types}
+        return types, iw, fw, fl
+
     def _fact_points(self, t, truth, x, call_of, alias):
         PA = self.PA
         full = set(DOMAIN)
